@@ -110,6 +110,7 @@ let wf_strata : (string * bool * (rng -> prof -> prof)) array = [|
   "tablefilter_upper_vs_lower", false, (fun r p -> { p with tf = (if rbool r then TfUpper else TfLower) });
   "list_only", false, (fun r p -> { p with listonly = true });
   "skip_system_on_pg_names", false, (fun r p -> { p with skipsys = true; pgnames = true; listonly = false });
+  "skip_system_on_filter_matches_pg_name", false, (fun r p -> { p with skipsys = true; pgnames = true; pgforce = true; listonly = false; tf = TfSubPg; mal = MalNone });
   "skip_system_off_pg_names", false, (fun r p -> { p with skipsys = false; pgnames = true; listonly = false });
   "v16_hint16_17", false, (fun r p -> with_layout p ~v16:true ~hint:(pick r [| 16; 17 |]) ~det:DetAny);
   "v16_auto_first_five_ok", false, (fun r p -> with_layout (plain p) ~v16:true ~hint:(hint_auto r) ~det:DetOk5);
